@@ -92,7 +92,7 @@ def _samples(rng, P, N, groups, n, big=False):
 
 
 def gen_cases(rng, tier):
-    n = {"quick": 130, "thorough": 1500, "search": 500}[tier]
+    n = {"quick": 130, "thorough": 4000, "search": 500}[tier]
     cases = []
     for k in range(n):
         kind = rng.choice(["int", "str"])
